@@ -107,7 +107,17 @@ def run(check):
       isinstance(t, ast.Name) and t.id == tv for t in n.ast.targets) and isinstance(n.ast.value, ast.Dict) and any(
       isinstance(k, ast.Constant) and k.value == 'name' for k in n.ast.value.keys)]
     if not tag_stores:
-      r_o.cannot_decide('%s: no `tags[tag] = value` store recognised' % pn)
+      # without a store of its own the parser must at least validate every extracted pair as a pair before handing it on;
+      # one that re-serialises the pairs and parses the text again loses the boundaries between them
+      vcalls = [c for c in walk_no_nested(m.node, include_self=False) if isinstance(c, ast.Call) and isinstance(c.func, ast.Attribute) and
+                c.func.attr == 'validateTagAndValue' and len(c.args) == 2]
+      if not vcalls:
+        r_o.violate('%s: pairs are not validated as extracted' % pn, m, None, '%s neither stores `tags[tag] = value` nor calls '
+                    'validateTagAndValue(tag, value) on the pairs it extracts: a value containing the separator of whatever it '
+                    'hands them to is split again, so a name that violates the tag rules is accepted and rewritten' % pn,
+                    construct='%s: validateTagAndValue(tag, value)' % pn)
+      else:
+        r_o.cannot_decide('%s: no `tags[tag] = value` store recognised' % pn)
       continue
     late = [ns for ns in name_stores + init_with_name if any(t in g.reach(g.after(ns), normal_only=True) for t in tag_stores)]
     reaches_ret = name_stores and all(
